@@ -94,7 +94,8 @@ Definition sched_invariant_settle_stmt : Prop := forall B wire s1 s2 p1 d1 u1 o1
   B < SIZE_LIMIT - 8 -> bytes_ok wire -> len wire < SIZE_LIMIT ->
   run_schedule norm maxc (new_parser B) wire s1 = SOk p1 d1 u1 o1 ->
   run_schedule norm maxc (new_parser B) wire s2 = SOk p2 d2 u2 o2 ->
-  d1 = d2 /\ settle (st p1) = settle (st p2) /\ (d1 = true -> st p1 = st p2) /\ o1 = o2 /  held p1 ++ u1 = held p2 ++ u2.
+  d1 = d2 /\ settle (st p1) = settle (st p2) /\ (d1 = true -> st p1 = st p2) /\ o1 = o2 /\
+  held p1 ++ u1 = held p2 ++ u2.
 
 Hypothesis HS1 : S1_stmt norm.
 Hypothesis HS2 : S2_stmt norm.
